@@ -434,4 +434,51 @@ theorem loop_indep (box velz : Rat) (pl vl pl' vl' : Option Nat) (s : List Rec) 
             rw [writeRow_ok_inv hv, writeRow_ok_inv hv', i3 a b]
 
 
+/-- a run of the loop that returns has met no header with a zero cells-per-dimension field -/
+theorem loop_ok_headers (box velz : Rat) (pl vl : Option Nat) (s : List Rec) :
+    ∀ (h0 : Option Hdr) (w0 : Nat) (o : Out), loop box velz pl vl s h0 w0 = .ok o → HeadersOk s := by
+  induction s with
+  | nil => intro _ _ _ _ c hc; cases hc
+  | cons c rest ih =>
+    intro h0 w0 o h
+    cases hc : isHeader c with
+    | true =>
+      simp only [loop, hc, if_true, bind, Except.bind] at h
+      cases hh : mkHdr box velz (expandToShort c) with
+      | error e => rw [hh] at h; cases h
+      | ok hd =>
+        rw [hh] at h
+        have hrest := ih (some hd) w0 o h
+        intro d hd' hdh
+        rcases List.mem_cons.mp hd' with rfl | hm
+        · intro hz
+          simp [mkHdr, hz] at hh
+        · exact hrest d hm hdh
+    | false =>
+      simp only [loop, hc, Bool.false_eq_true, if_false, bind, Except.bind] at h
+      cases hp : writeRow pl w0 (decodePos h0 (expandToShort c)) with
+      | error e => rw [hp] at h; cases h
+      | ok pw =>
+      cases hv : writeRow vl w0 (decodeVel h0 (expandToShort c)) with
+      | error e => rw [hp, hv] at h; cases h
+      | ok vw =>
+      cases hl : loop box velz pl vl rest h0 (w0 + 1) with
+      | error e => rw [hp, hv, hl] at h; cases h
+      | ok o1 =>
+        have hrest := ih h0 (w0 + 1) o1 hl
+        intro d hd' hdh
+        rcases List.mem_cons.mp hd' with rfl | hm
+        · rw [hc] at hdh; cases hdh
+        · exact hrest d hm hdh
+
+/-- `applyWrites` commutes with mapping the cell contents -/
+theorem applyWrites_map {α β : Type} (g : α → β) (ws : List (Nat × α)) : ∀ (a : List α),
+    (applyWrites a ws).map g = applyWrites (a.map g) (ws.map (fun w => (w.1, g w.2))) := by
+  induction ws with
+  | nil => intro a; rfl
+  | cons w rest ih =>
+    intro a
+    simp only [applyWrites, List.foldl_cons, List.map_cons] at ih ⊢
+    rw [ih (a.set w.1 w.2), List.map_set]
+
 end AbacusVerif.Pack9
